@@ -237,11 +237,11 @@ def html_spans(m, variant):
 
 
 # ---- EPUB / PPTX part reuse ------------------------------------------------------------------------------------------
-@family("epub-spine-reuse", "epub", ms=(10, 1000, 20000))
+@family("epub-spine-reuse", "epub", ms=(10, 300, 3000))
 def epub_spine_reuse(m, variant):
     from vf.gen import wrappers
     ch = ('<?xml version="1.0" encoding="utf-8"?><html xmlns="http://www.w3.org/1999/xhtml"><head><title>t</title></head><body>'
-          + "".join(f"<p>paragraph {i} ZM00001 some text some text some text</p>" for i in range(300)) + "</body></html>")
+          + "".join(f"<p>paragraph {i} ZM00001 some text some text some text</p>" for i in range(3000)) + "</body></html>")
     return wrappers.epub_bytes([("ch1.xhtml", ch)], spine_order=[0] * m)
 
 
